@@ -123,7 +123,7 @@ def graph(rnd, W, depth, keys, unsup=False, handled=()):
     return W.make(rnd.choice(keys), value)
 
 
-def record(W, orig, cfgd, mode, config, ignore, dumped=None, fail_first=False):
+def record(W, orig, cfgd, mode, config, ignore, dumped=None, fail_first=False, il_load=None):
     """dumped: outcome of a dump(orig) that was executed elsewhere (under an interleaving) - ("ok", value) | ("exc", text)."""
     rec = {"mode": mode, "CT": W.CT, "cfg": cfgd, "orig": W.enc(orig)}
     if dumped is not None:
@@ -170,7 +170,16 @@ def record(W, orig, cfgd, mode, config, ignore, dumped=None, fail_first=False):
                 else:
                     del h["__verif_bad__"]
         rec["loadin"] = enc(wire)
-        l = call(lambda: jsonclass.load(wire, config.classes))
+        if il_load is not None:
+            # load(wire) with a complete load() of an equal structure (another thread) placed at line il_load of it
+            from harness import interleave
+            twin = copy.deepcopy(wire)
+            la, lb, fired = interleave.run(lambda: jsonclass.load(wire, config.classes), lambda: jsonclass.load(twin, config.classes), il_load)
+            l = {"ok": la[0] == "ok", "v": la[1] if la[0] == "ok" else None, "exc": "" if la[0] == "ok" else la[1]}
+            if l["ok"] and lb[0] != "ok":
+                l = {"ok": False, "v": None, "exc": "second thread: " + lb[1]}
+        else:
+            l = call(lambda: jsonclass.load(wire, config.classes))
         rec["loadin_after"] = enc(wire)
         rec["loaded"] = {"ok": l["ok"], "v": W.enc(l["v"]), "exc": l["exc"]}
     else:
@@ -196,6 +205,16 @@ def interleaved(W, orig, cfgd, mode, config, ignore, rnd, limit):
         ra, rb, fired = interleave.run(fa, fb, k, extra)
         out.append(record(W, orig, cfgd, mode, config, ignore, dumped=ra))
         out.append(record(W, other, cfgd, mode, config, ignore, dumped=rb))
+    # ... and the load of what was dumped, interleaved with the load of an equal structure
+    d0 = call(fa)
+    if d0["ok"]:
+        try:
+            w0 = json.loads(json.dumps(d0["v"]))
+            npts = interleave.points(lambda: jsonclass.load(copy.deepcopy(w0), config.classes))
+            for k in interleave.sample_points(npts, max(2, limit // 2), rnd):
+                out.append(record(W, orig, cfgd, mode, config, ignore, il_load=k))
+        except (TypeError, ValueError):
+            pass
     return out
 
 
